@@ -135,7 +135,7 @@ def check_positions(w, out, where):
 
 
 def check_classes(w, out, where):
-    for k in range(NK):
+    for k in range(len(w.K)):
         cls = w.K[k]
         exp = w.ccomps[k]
         if len(cls) != len(exp):
@@ -412,6 +412,13 @@ def run_history(ops, props=None):
                     out.append(('C20', f'{where}: class component edit wrongly rejected'))
                 if monitor.fingerprint(cls._components) != before:
                     out.append(('C20', f'{where}: rejected class component edit left a trace'))
+        elif kind == 'subclass':
+            parent = op[1]
+            if parent < len(w.K):
+                cls = type(f'K{len(w.K)}', (w.K[parent],), {})
+                w.K.append(cls)
+                w.ccomps[len(w.K) - 1] = {}
+                w.ctag[len(w.K) - 1] = 0
         elif kind == 'ctag':
             w.K[op[1]].tag = op[2]
             w.ctag[op[1]] = op[2]
@@ -462,7 +469,11 @@ def small_histories(prop):
             ops += [_mk(f'p{i}', 0, None, (0,) if i % 2 else ()), ('add', f'p{i}') + p]
         ops += [('add', 'p0', 0, 0, 0), ('remove', 'p0'), ('remove', 'p1'), ('remove', 'p0')]
         yield ops
-    # classes (C20)
+    # classes (C20): subclasses defined after the parent received class components / a default tag
+    for parent in range(NK):
+        yield [('cadd', parent, 0), ('ctag', parent, 4), ('subclass', parent), ('cadd', NK, 1), ('cadd', NK, 0),
+               ('cremove', parent, 0), _mk('x', NK), ('ctag', NK, 2), _mk('y', parent), _mk('z', NK),
+               ('subclass', NK), ('cremove', NK + 1, 1), ('cadd', NK + 1, 2), _mk('u', NK + 1, 0)]
     for ci, cj in itertools.permutations(range(NK), 2):
         yield [('cadd', ci, 0), ('ctag', ci, 5), _mk('x', ci), _mk('y', cj), _mk('z', ci, 0), ('cadd', ci, 0),
                ('cremove', cj, 0), ('cadd', cj, 1), ('ctag', cj, 7), _mk('u', cj), _mk('v', ci, 3), ('cremove', ci, 0),
